@@ -131,13 +131,13 @@ TAMPER_OUT = ["out_spk_attacker_p2sh", "out_spk_attacker_p2wsh", "out_spk_p2pkh"
               # summary may refuse it, but if it is given its sums must still add up
               "spend_script_kind", "spend_script_kind",
               # not an attack either: a segwit input that carries both UTXO forms, in agreement
-              "both_utxo_forms_consistent"]
+              "both_utxo_forms_consistent", "p2wsh_prev_tx_only_honest"]
 SPEND_KINDS = ["op_return_zero", "op_return_value", "op_return_value", "p2sh", "p2wpkh", "p2wsh", "p2tr",
                "p2pk", "bare_multisig", "empty", "op_true", "witness_v2"]
 TAMPER_IN = ["in_foreign_script", "in_wrong_path", "in_foreign_fingerprint", "in_key_swapped",
              "in_prev_tx_amount", "in_prev_tx_other", "in_changed_quorum_script",
              "in_witness_utxo_contradicts_prev_tx", "in_p2sh_as_witness_utxo_foreign_script",
-             "in_paths_copied_from_other_input"]
+             "in_paths_copied_from_other_input", "in_p2wsh_prev_tx_only_foreign_script"]
 
 
 _TAMPER_CHOICE = choice(TAMPER_OUT + TAMPER_IN)
@@ -487,6 +487,28 @@ def check_tamper(case, ctx):
         else:
             ptx["ins"][0]["prev"] = bytes(32)
         pm["inputs"][j][i] = (k, psbtmap.write_tx_legacy(ptx))
+    elif t == "p2wsh_prev_tx_only_honest":
+        if kind != "p2wsh":
+            raise Discard("p2wsh inputs only")
+        j = w % len(pm["inputs"])
+        kvs = [(k, v) for k, v in pm["inputs"][j] if k != b"\x01"]
+        pm["inputs"][j] = [(b"\x00", info["prevs"][j]["raw"])] + kvs
+    elif t == "in_p2wsh_prev_tx_only_foreign_script":
+        # a segwit input that carries only the previous transaction (allowed by BIP174), with a witness
+        # script the spent output does not commit to
+        if kind != "p2wsh":
+            raise Discard("p2wsh inputs only")
+        j = w % len(pm["inputs"])
+        p = info["prevs"][j]
+        kvs = [(k, v) for k, v in pm["inputs"][j] if k != b"\x01"]
+        pm["inputs"][j] = [(b"\x00", p["raw"])] + kvs
+        if d % 4:
+            set_kv(pm["inputs"][j], IN_SCRIPT_KEY, att_script)
+        else:  # the m of the genuine script changed
+            m2 = m + 1 if m < n else max(1, m - 1)
+            if m2 == m:
+                raise Discard("1-of-1")
+            set_kv(pm["inputs"][j], IN_SCRIPT_KEY, Model.multisig(m2, model.secs(0, p["idx"])))
     elif t == "in_paths_copied_from_other_input":
         # every key of one input declares the derivation path of the OTHER input's address: paths that are
         # genuine for the wallet (and checked when the other input is examined), but wrong for these keys
@@ -551,7 +573,7 @@ def check_tamper(case, ctx):
     check_summary(desc, pm2, model, f"tamper/{t}")
     if t == "second_change_output":
         require(sum(1 for o in desc["outputs_desc"] if o["is_change"]) <= 1, "tamper/two_change_outputs_labelled")
-    if t in ("out_amount_changed", "spend_script_kind", "both_utxo_forms_consistent"):
+    if t in ("out_amount_changed", "spend_script_kind", "both_utxo_forms_consistent", "p2wsh_prev_tx_only_honest"):
         return  # an honest summary of the altered amounts / of the unusual payment is fine
     if ci is not None and t not in ("second_change_output", "spend_gets_change_metadata"):
         # the tampered output must not be presented as change
